@@ -17,7 +17,7 @@ def run(ctx, res):
     res.floor("C02.struct", "events_matched", 500)
     # lookup clause: key lookups return the entries carrying the key in source order — by the index rules of C06
     from . import C06
-    res.rules_run.append("C02.lookup = C06.pair row push_entry + C06.sorted insertion cases (the parser appends with push -> push_entry; the index keeps the positions of a key sorted, so lookups on a parsed object see its entries in source order)")
-    C06.pair(ctx, res, only={"push_entry"})
+    res.rules_run.append("C02.lookup = C06.model restricted to push and the key queries + C06.sorted insertion cases (the parser appends with push; from every small object with an exact index push keeps the index exact, and index_of / contains_key / get_entries_with_index answer what a linear scan would, in source order)")
+    C06.model_rule(ctx, res, rule="C02.lookup", ops={"push", "queries"})
     C06.sorted_rule(ctx, res, insert_only=True)
     res.assumptions.append("json_number::NumberBuf::new_unchecked, SmallString::push and SmallVec::push store what they are given (dependencies)")
